@@ -4,6 +4,8 @@ import (
 	"bytes"
 	"encoding/json"
 	"fmt"
+	"sync"
+	"sync/atomic"
 
 	"verif/internal/ev"
 	"verif/ref"
@@ -69,6 +71,51 @@ func c02Stream(s []byte) (kind string, out []delivered) {
 	return "", out
 }
 
+// junkRun is a run of n bytes none of which is 0xD3.
+func junkRun(n int) []byte {
+	b := make([]byte, n)
+	for i := range b {
+		b[i] = byte(i*7 + 1)
+		if b[i] == 0xD3 {
+			b[i] = 0x53
+		}
+	}
+	return b
+}
+
+// junkRunLengths: lengths of 0xD3-free runs.  Scanners collect such a run in a
+// buffer, so every buffer-size boundary matters: all lengths up to 300 and a
+// window round every power of two up to 64K (quick); every length up to 8300
+// as well (thorough).
+func junkRunLengths(thorough bool) []int {
+	seen := map[int]bool{}
+	var out []int
+	add := func(n int) {
+		if n > 0 && !seen[n] {
+			seen[n] = true
+			out = append(out, n)
+		}
+	}
+	top := 300
+	if thorough {
+		top = 8300
+	}
+	for n := 1; n <= top; n++ {
+		add(n)
+	}
+	for b := 512; b <= 65536; b *= 2 {
+		for d := -2; d <= 2; d++ {
+			add(b + d)
+		}
+	}
+	for _, n := range []int{1000, 1023, 1026, 1029, 2000, 3000, 4000, 5000, 8096, 10000} {
+		for d := -1; d <= 1; d++ {
+			add(n + d)
+		}
+	}
+	return out
+}
+
 // C02Input is the input dimension of C02 (the schedule dimension runs under
 // the controlled scheduler, see mc/).  It is merged into the C02 evidence by
 // the driver.
@@ -114,7 +161,7 @@ func C02Input(r *ev.Run) {
 				s := append(append([]byte{}, prefix...), fr[:cut]...)
 				one(s)
 				r.Count(1, 1, 1, 1)
-				r.DistinctN++
+				atomic.AddInt64(&r.DistinctN, 1)
 			}
 		}
 	}
@@ -124,10 +171,31 @@ func C02Input(r *ev.Run) {
 		s, _ := concatSegs(menu, idx)
 		one(s)
 		r.Count(1, 1, 1, 1)
-		r.DistinctN++
+		atomic.AddInt64(&r.DistinctN, 1)
 	})
 	_, names := concatSegs(menu, []int{16, 2, 21})
 	r.Sample(map[string]interface{}{"enumeration": "S2", "segments": names})
+	// S3: long 0xD3-free runs alone, before a frame, between frames and before a truncated frame
+	lens := junkRunLengths(thorough)
+	fr := ref.TypedFrame(1005, 19, fillA)
+	var mu sync.Mutex
+	parallelFor(len(lens), func(i int) {
+		j := junkRun(lens[i])
+		for v, s := range [][]byte{j, append(append([]byte{}, j...), fr...), append(append(append([]byte{}, fr...), j...), fr...), append(append([]byte{}, j...), fr[:9]...)} {
+			if v > 1 && lens[i] > 300 && !thorough && lens[i]&(lens[i]-1) != 0 {
+				continue
+			}
+			kind, out := c02Stream(s)
+			mu.Lock()
+			if kind != "" {
+				fail(kind, s, out)
+			}
+			r.Count(1, 1, 1, 1)
+			atomic.AddInt64(&r.DistinctN, 1)
+			mu.Unlock()
+		}
+	})
+	r.Sample(map[string]interface{}{"enumeration": "S3", "junk_run_lengths": len(lens), "longest": 65538})
 }
 
 // c03 segment menu: valid frames and D3-free junk only.
@@ -225,7 +293,7 @@ func classifyMismatch(got []delivered, want []ref.Seg) string {
 // C03: valid frames and D3-free junk are delivered exactly as constructed.
 func C03(r *ev.Run) {
 	thorough := r.Tier == "thorough"
-	r.Rule = "all sequences of <=3 (quick) / <=4 (thorough) segments from 16 valid frames (11 types, payload lengths 1,2,4,5,9,12,19,22,63,64,211,255,256,1022,1023, payload/CRC/length byte containing 0xD3) and 5 D3-free junk runs, each optionally followed by a frame truncated at every byte position; plus every payload length 1..1023 alone, between junk and back-to-back; expected output is the constructed segment list (adjacent junk merged). Non-trivial = contains at least one valid frame; distinct = distinct streams"
+	r.Rule = "all sequences of <=3 (quick) / <=4 (thorough) segments from 16 valid frames (11 types, payload lengths 1,2,4,5,9,12,19,22,63,64,211,255,256,1022,1023, payload/CRC/length byte containing 0xD3) and 5 D3-free junk runs, each optionally followed by a frame truncated at every byte position; plus every payload length 1..1023 alone, between junk and back-to-back; plus a frame after, and frames round, a 0xD3-free run of every length 1..300 and round every power of two up to 64K (thorough: every length to 8300); expected output is the constructed segment list (adjacent junk merged). Non-trivial = contains at least one valid frame; distinct = distinct streams"
 	r.Assumptions = []string{"precondition of C03 holds by construction (junk has no 0xD3 byte; frames built by the reference encoder)"}
 	frames, junk := c03Menu(thorough)
 	menu := append(append([]namedSeg{}, frames...), junk...)
@@ -240,7 +308,7 @@ func C03(r *ev.Run) {
 		want := expectedSegs(parts, tail)
 		got, fault := implStream(s)
 		r.Count(1, 1, 1, 1)
-		r.DistinctN++
+		atomic.AddInt64(&r.DistinctN, 1)
 		if fault != "" {
 			r.Violate(ev.Violation{Fingerprint: "C03 stream " + fault, What: fault,
 				Case: map[string]interface{}{"stream": ev.FullHex(s), "segments": names, "tail_len": len(tail), "expected_segments": showSegs(want)}, ReplayKind: "stream-expected"})
@@ -314,6 +382,14 @@ func C03(r *ev.Run) {
 		check([]namedSeg{f}, f.Bytes[:len(f.Bytes)/2])
 	})
 	r.Extra["payload_lengths_swept"] = len(lens)
+	// every junk-run length: the frame after (and before) a long 0xD3-free run
+	jl := junkRunLengths(thorough)
+	parallelFor(len(jl), func(i int) {
+		jr := namedSeg{fmt.Sprintf("junk%d", jl[i]), junkRun(jl[i]), "junk"}
+		check([]namedSeg{jr, frames[0]}, nil)
+		check([]namedSeg{frames[3], jr, frames[0]}, nil)
+	})
+	r.Extra["junk_run_lengths_swept"] = len(jl)
 	r.Sample(map[string]interface{}{"segments": []string{"j7", "FcrcD3", "F0/1"}, "stream": ev.FullHex(append(append(append([]byte{}, junk[2].Bytes...), frames[12].Bytes...), frames[2].Bytes...))})
 	r.Sample(map[string]interface{}{"segments": []string{"F1005/19"}, "truncated_tail_of": "F4095/2", "cut": 5})
 }
